@@ -262,7 +262,10 @@ def parse_file(text, extract_items):
                     n = 0
                     for kw in ("invariant", "invariant_except_break", "ensures"):
                         for (label, a, b) in lsecs.get(kw, []):
-                            f.invariants.append((label or ("loop%d.i%d" % (ln, n)), a, b, text[a:b]))
+                            lab = label or ("loop%d.i%d" % (ln, n))
+                            if any(x[0] == lab for x in f.invariants):
+                                lab = "%s@loop%d" % (lab, ln)  # same label reused in another loop of this fn
+                            f.invariants.append((lab, a, b, text[a:b]))
                             n += 1
         f.canary = f.name.startswith("vf_canary")
         fns.append(f)
